@@ -2,6 +2,7 @@ package messages
 
 import (
 	"fmt"
+	"io"
 	"log"
 	"time"
 
@@ -222,6 +223,10 @@ func (t *Ticket) Decrypt(key types.EncryptionKey) error {
 // GetPACType returns a Microsoft PAC that has been extracted from the ticket and processed.
 func (t *Ticket) GetPACType(keytab *keytab.Keytab, sname *types.PrincipalName, l *log.Logger) (bool, pac.PACType, error) {
 	var isPAC bool
+	if l == nil {
+		// No logger is configured (the default of service.Settings): (*log.Logger)(nil).Printf panics.
+		l = log.New(io.Discard, "", 0)
+	}
 	for _, ad := range t.DecryptedEncPart.AuthorizationData {
 		if ad.ADType == adtype.ADIfRelevant {
 			var ad2 types.AuthorizationData
